@@ -25,6 +25,10 @@ pub struct Profile {
     pub rebuild_checks: bool,
     /// Draw the RRDP retention configuration per run (C11).
     pub rrdp_swarm: bool,
+    /// A second instance (no trust anchor, no repository) whose CAs have
+    /// their parents and their repository on the first one, reached over
+    /// the simulated network with these fault rates.
+    pub net: Option<crate::net::NetCfg>,
 }
 
 #[derive(Clone, Debug, Default, Serialize, Deserialize)]
@@ -86,7 +90,19 @@ pub fn draw_world(
         cfg.disk = cfg.disk || rrdp_rng.chance(1, 2);
     }
     let mut w = World::new(base, START_SECS);
+    let cfg_a = cfg.clone();
     w.add_instance(cfg);
+    if profile.net.is_some() {
+        let mut net_rng = root.fork("net-config");
+        let mut cfg_b = world::draw_inst_cfg(
+            "b", &mut net_rng, profile.wide_timing
+        );
+        cfg_b.testbed = false;
+        cfg_b.disk = cfg_a.disk;
+        cfg_b.timing = cfg_a.timing.clone();
+        let idx = w.add_instance(cfg_b);
+        w.insts[idx].skew_secs = *net_rng.pick(&[-120i64, -5, 0, 0, 5, 120]);
+    }
     (w, root.fork("ops"), n_ops)
 }
 
@@ -141,9 +157,18 @@ fn run_history_here(
         w, rng, profile.gen_cfg.clone(), profile.oracles.clone()
     );
     crate::capture_logs(profile.oracles.c19);
+    if let Some(net_cfg) = &profile.net {
+        crate::net::install(Rng::new(seed).fork("net"), net_cfg.clone());
+    }
 
     // Start-up.
-    let started = guarded(|| runner.world.insts[0].start());
+    let started = guarded(|| {
+        let res = runner.world.insts[0].start();
+        if res.is_ok() && runner.world.insts.len() > 1 {
+            return runner.world.insts[1].start()
+        }
+        res
+    });
     match started {
         Guarded::Ok(Ok(())) => { }
         Guarded::Ok(Err(err)) => {
@@ -375,6 +400,7 @@ fn finish(
     for inst in runner.world.insts.iter_mut() {
         inst.stop();
     }
+    crate::net::uninstall();
     crate::capture_logs(false);
     seams::enable(false);
     world::remove_run_dir(base);
